@@ -46,7 +46,10 @@ def install(w):
     w.contract(f"{E}.located_error.located_error",
                params={"original_error": "dyn", "nodes": "dyn", "path": "dyn"},
                returns="exc:GraphQLError",
-               ensures=[], raises=[], modifies=[],
+               # whatever comes in (an exception of any class, with any attributes - a list-valued
+               # `path` included), what goes out is a GraphQLError: handle_field_error re-raises it
+               # and only `except GraphQLError` handlers stand between it and the caller
+               ensures=["is_a(result, 'GraphQLError')"], raises=[], modifies=[],
                # what is forwarded to the constructor is the caller's own node list, or has the
                # types the constructor's body needs - whatever attributes the original exception
                # carries
